@@ -41,6 +41,11 @@ func runC08(c *Ctx, idx int) {
 		sc.Epochs = 20 + c.G.Intn(21)
 		// thresholds which give several species
 		sc.Opts.CompatThreshold = pick(c.G, 0.3, 0.6, 1.0, 2.0, 3.0)
+		if idx%4 == 3 {
+			// from some epoch on the caller goes on with a changed by-value copy of the options (another threshold)
+			sc.SwitchOptsAt = 2 + c.G.Intn(sc.Epochs-2)
+			sc.switchThreshold = true
+		}
 		mon := &specMonitor{inEpoch: true}
 		runScenario(c, sc, mon)
 	}
@@ -236,6 +241,7 @@ func (m *specMonitor) PreConstruct(c *Ctx, sc *EvoScenario) {
 
 func (m *specMonitor) BeforeEpoch(c *Ctx, sc *EvoScenario, gen int, pop *genetics.Population) {
 	m.inEpoch = true
+	m.opts = sc.Opts // (the options object may have been switched for a changed copy)
 }
 
 func (m *specMonitor) AfterEpoch(c *Ctx, sc *EvoScenario, gen int, pop *genetics.Population, err error) bool {
